@@ -460,6 +460,7 @@ namespace occa {
         // it is counted in bytesAllocated, so it must be un-counted when it is
         // released (own_host_pointer decides who frees the host pointer)
         buf->isWrapped = false;
+        buf->useHostPointer = true;
       } else {
         buf->malloc(bytes);
       }
